@@ -58,9 +58,19 @@ package neutrino
 //	mute      accepts the connection and never sends a byte
 //	midmsg    answers getheaders with half a headers message and closes the connection
 //	nocf      honest, but does not advertise the compact-filter service bit
+//	nonet     honest, but does not advertise NODE_NETWORK (witness and compact-filter bits kept: the client accepts
+//	          it as a query peer, blockmanager.go isSyncCandidate refuses it as a sync candidate); follows the honest
+//	          chain, announces new tips by inv, serves everything truthfully
 //
 // Orthogonal to the kind: Dup = the node sends every cfcheckpt and cfheaders answer twice (a well-formed
-// duplicate; the all-peers queries must not hand a peer's second answer to their callback).
+// duplicate; the all-peers queries must not hand a peer's second answer to their callback).  NoNetwork = the
+// version message does not advertise NODE_NETWORK (any kind; kind nonet implies it).
+//
+// getheaders is answered the way a full node does (btcd locateInventory / Bitcoin Core FindForkInGlobalIndex): the
+// FIRST locator entry that is on the node's own chain is the start (stale or unknown entries are skipped), no such
+// entry = start at genesis; at most 2000 headers after the start, ending with the stop hash if it comes earlier; an
+// empty locator = only the stop hash's header.  Stats() counts "getheaders:skipped" (answers whose start was not the
+// first locator entry) and "getheaders:nomatch" (answers from genesis because no entry was on the chain).
 
 import (
 	"bytes"
@@ -660,6 +670,8 @@ type vnBehaviour struct {
 	Style string `json:"style"` // cfhlie: omit | mismatch | none
 	Claim int    `json:"claim"` // added to the height announced in the version message
 	Dup   bool   `json:"dup"`   // every cfcheckpt / cfheaders answer is sent twice (any kind that answers)
+	// NoNetwork: the version message does not advertise NODE_NETWORK (kind "nonet" implies it)
+	NoNetwork bool `json:"nonetwork,omitempty"`
 }
 
 type vnHeld struct {
@@ -904,7 +916,7 @@ func (nd *vnNode) accept(c *vnConn) {
 func (nd *vnNode) announce() {
 	b := nd.Behaviour()
 	switch b.Kind {
-	case "honest", "cplie", "cfhlie", "cpprev", "nocf":
+	case "honest", "cplie", "cfhlie", "cpprev", "nocf", "nonet":
 	default:
 		return
 	}
@@ -985,6 +997,9 @@ func (nc *vnNodeConn) handle(msg wire.Message, released bool) {
 		svc := wire.SFNodeNetwork | wire.SFNodeWitness | wire.SFNodeCF
 		if b.Kind == "nocf" {
 			svc = wire.SFNodeNetwork | wire.SFNodeWitness
+		}
+		if b.Kind == "nonet" || b.NoNetwork {
+			svc &^= wire.SFNodeNetwork
 		}
 		me := wire.NewNetAddressIPPort(nd.Addr.IP, uint16(nd.Addr.Port), svc)
 		you := wire.NewNetAddressIPPort(net.IPv4(10, 9, 9, 9), 0, 0)
@@ -1103,12 +1118,18 @@ func (n *vnNet) nodesSnapshot() []*vnNode {
 func (nc *vnNodeConn) onGetHeaders(m *wire.MsgGetHeaders, b vnBehaviour) {
 	c := nc.nd.chain()
 	start := -1
-	for _, lh := range m.BlockLocatorHashes {
+	for i, lh := range m.BlockLocatorHashes {
 		r, _, ok := nc.nd.net.lookup(*lh)
 		if ok && r.H <= c.tip() && c.hash[r.H] == *lh {
 			start = r.H
+			if i > 0 {
+				nc.nd.count("getheaders:skipped")
+			}
 			break
 		}
+	}
+	if start < 0 && len(m.BlockLocatorHashes) > 0 {
+		nc.nd.count("getheaders:nomatch")
 	}
 	out := wire.NewMsgHeaders()
 	if len(m.BlockLocatorHashes) == 0 {
